@@ -6,6 +6,9 @@ ALL = ["C%02d" % i for i in range(1, 21)]
 
 # property -> (technique, decided clauses (short), not decided / assumptions)
 CLAIMED = {
+ "C11": ("loop-direction agreement between encoder and decoder, guarded reflect indexing, error-use analysis of the library delegations, kind-set comparison, buffer-alias value flow (go/ssa)",
+         "C11.1 form codec encodes and decodes slice/array elements in the same direction; C11.2 destination arrays are indexed only after a Len() guard that rejects surplus values; C11.3 every library encode/decode error is returned and every Unmarshal can fail; C11.4 plain codec formats and parses the same set of kinds; C11.5 decoded values never alias the input buffer",
+         "round-trip EQUALITY over the value domain (numeric extremes, UTF-8, nested structs) and decoder totality for arbitrary bytes are value-level and are NOT decided: only these structural necessary conditions are; json/xml/protobuf/thrift library behaviour"),
  "C13": ("shape analysis of the bounded retry counter, dominance chains of the redial closure, path search of the retry loop, path-sensitive drain check (go/ssa)",
          "C13.1 Next counts down, every re-dial guarded by Next() of a counter built from RedialTimes; C13.2 redial callback/closure order, user id kept, old connection closed; C13.3 exhaustion closes, enters RedialFailed, reports false, and the session ends; C13.4 trigger de-duplication order; C13.5 pending calls are cancelled before any redial; C13.6 writes are retried only for the closed sentinel after a successful redial; C13.7 redial installed iff configured",
          "behaviour over fault sequences and timing: e.g. after a writer-triggered redial the old reader's readDisconnected still cancels the re-sent call and may close the new socket (observed while reading; needs a schedule, not decided by any rule); server availability windows"),
@@ -67,7 +70,6 @@ CLAIMED = {
 
 NOT_YET = "rules for this property are not implemented yet in this revision of the checker (see DESIGN.md section 3 for the plan)"
 NA = {
- "C11": "body-codec round-trip and decoder totality quantify over Go values / byte strings handled by reflection and library code; no structural necessary condition of the round-trip exists short of executing the codecs (DESIGN.md section 5). The buffer-retention clause of the same codecs is decided under C01.8.",
 }
 
 def main():
